@@ -361,7 +361,14 @@ func (r *simRun) crashPick(wal string, lo, hi int64, bounds []int64) int64 {
 // see +2/3 prevotes without a polka (Byzantine nil prevotes) and time out into a nil precommit,
 // let a drawn subset C of L see +2/3 precommits (with Byzantine help) and commit, and push the
 // rest into the next round.
-func (r *simRun) splitLock() error {
+type splitOpt struct {
+	L, C     []int // forced sets (nil: drawn)
+	noPhase2 bool
+}
+
+func (r *simRun) splitLock() error { return r.splitLockOpt(nil) }
+
+func (r *simRun) splitLockOpt(opt *splitOpt) error {
 	s := r.s
 	rt := r.rt
 	live := r.liveCorrect()
@@ -404,23 +411,30 @@ func (r *simRun) splitLock() error {
 	// choose L (nodes that will see the polka and lock) and C (members of L that will also commit)
 	var L, C []int
 	inL := map[int]bool{}
-	for _, j := range live {
-		if rapid.IntRange(0, 9).Draw(rt, "inL") < 6 {
-			L = append(L, j)
+	if opt != nil && opt.L != nil {
+		L, C = opt.L, opt.C
+		for _, j := range L {
 			inL[j] = true
 		}
-	}
-	switch rapid.IntRange(0, 9).Draw(rt, "cMode") {
-	case 0, 1: // nobody commits
-	case 2, 3: // independent coin per member
-		for _, j := range L {
-			if rapid.Bool().Draw(rt, "inC") {
-				C = append(C, j)
+	} else {
+		for _, j := range live {
+			if rapid.IntRange(0, 9).Draw(rt, "inL") < 6 {
+				L = append(L, j)
+				inL[j] = true
 			}
 		}
-	default: // exactly one member commits
-		if len(L) > 0 {
-			C = append(C, r.pickNode("c", L))
+		switch rapid.IntRange(0, 9).Draw(rt, "cMode") {
+		case 0, 1: // nobody commits
+		case 2, 3: // independent coin per member
+			for _, j := range L {
+				if rapid.Bool().Draw(rt, "inC") {
+					C = append(C, j)
+				}
+			}
+		default: // exactly one member commits
+			if len(L) > 0 {
+				C = append(C, r.pickNode("c", L))
+			}
 		}
 	}
 	ds := r.decisions[h]
@@ -545,7 +559,7 @@ func (r *simRun) splitLock() error {
 			r.counts["splitLock.partialCommit"]++
 		}
 	}
-	if rapid.IntRange(0, 3).Draw(rt, "phase2") == 0 {
+	if (opt != nil && opt.noPhase2) || rapid.IntRange(0, 3).Draw(rt, "phase2") == 0 {
 		return nil
 	}
 	// phase 2: in the following rounds the adversary supports whatever is proposed and the
@@ -577,6 +591,136 @@ func (r *simRun) splitLock() error {
 	return nil
 }
 
+// oldPolka: scripted adversary for the "unlock only on a LATER polka" rule.
+//  round r   : nobody gets a proposal; everybody prevotes nil; the nil prevotes are withheld from a
+//              set of victims, who still leave the round through the nil precommits;
+//  round r+1 : split-lock: the victims and one more node see the polka for the proposed block and
+//              lock it, that node also commits it (Byzantine precommits), the victims time out;
+//  then      : the withheld round-r nil polka is delivered to the victims (a correct node must keep
+//              its lock: the polka is older than the lock);
+//  round r+2…: the adversary supports whatever is proposed.
+func (r *simRun) oldPolka() error {
+	s := r.s
+	rt := r.rt
+	live := r.liveCorrect()
+	thr := 2*s.n/3 + 1
+	if s.f == 0 || len(live) < 3 {
+		r.counts["oldPolka.skip"]++
+		return nil
+	}
+	st0 := s.nodes[live[0]].state()
+	for _, j := range live {
+		st := s.nodes[j].state()
+		if st.Height != st0.Height || st.Round != st0.Round || st.Step > consensus.VerifSimStepPropose {
+			r.counts["oldPolka.skip"]++
+			return nil
+		}
+	}
+	h, round := st0.Height, st0.Round
+	// victims: as many as still allows them to see +2/3 nil precommits from the others and the adversary
+	maxV := len(live) + s.f - thr
+	if maxV > len(live)-2 {
+		maxV = len(live) - 2
+	}
+	if maxV < 1 {
+		r.counts["oldPolka.skip"]++
+		return nil
+	}
+	nV := rapid.IntRange(1, maxV).Draw(rt, "victims")
+	perm := rapid.Permutation(live).Draw(rt, "roles")
+	victims := append([]int{}, perm[:nV]...)
+	committer := perm[nV]
+	isV := map[int]bool{}
+	for _, v := range victims {
+		isV[v] = true
+	}
+	// round r: everybody times out of propose and prevotes nil
+	for _, j := range live {
+		if st := s.nodes[j].state(); st.Step <= consensus.VerifSimStepPropose {
+			for i := 0; i < 3 && s.nodes[j].state().Step < consensus.VerifSimStepPrevote; i++ {
+				if !s.nodes[j].state().HasTimer {
+					break
+				}
+				if err := s.timeout(j); err != nil {
+					return err
+				}
+			}
+		}
+	}
+	isPV := func(m *simMsg) bool {
+		return m.kind == "vote" && m.h == h && m.r == round && m.vt == consensus.VoteTypePrevote && !m.byz
+	}
+	isPC := func(m *simMsg) bool {
+		return m.kind == "vote" && m.h == h && m.r == round && m.vt == consensus.VoteTypePrecommit
+	}
+	for _, j := range live {
+		if !isV[j] {
+			if err := s.flushTo(j, isPV); err != nil {
+				return err
+			}
+			if st := s.nodes[j].state(); st.Step == consensus.VerifSimStepPrevoteWait && st.HasTimer {
+				if err := s.timeout(j); err != nil {
+					return err
+				}
+			}
+		}
+	}
+	for _, b := range s.byzantine() {
+		r.byzVote(b, h, round, consensus.VoteTypePrecommit, nil)
+	}
+	for pass := 0; pass < 3; pass++ {
+		for _, j := range live {
+			if err := s.flushTo(j, isPC); err != nil {
+				return err
+			}
+			if st := s.nodes[j].state(); st.Height == h && st.Round == round && st.Step == consensus.VerifSimStepPrecommitWait && st.HasTimer {
+				if err := s.timeout(j); err != nil {
+					return err
+				}
+			}
+		}
+	}
+	for _, j := range live {
+		if st := s.nodes[j].state(); st.Height != h || st.Round != round+1 {
+			r.counts["oldPolka.stuck"]++
+			s.logf("oldPolka(h%d r%d victims=%v): node %d did not reach round %d", h, round, victims, j, round+1)
+			return nil
+		}
+	}
+	// round r+1: victims and the committer lock, the committer commits
+	L := append(append([]int{}, victims...), committer)
+	for _, j := range perm[nV+1:] {
+		if rapid.IntRange(0, 9).Draw(rt, "extraLock") < 2 {
+			L = append(L, j)
+		}
+	}
+	if err := r.splitLockOpt(&splitOpt{L: L, C: []int{committer}, noPhase2: true}); err != nil {
+		return err
+	}
+	// the old polka arrives at the victims
+	for _, v := range victims {
+		if !s.nodes[v].alive {
+			continue
+		}
+		if err := s.flushTo(v, isPV); err != nil {
+			return err
+		}
+		for _, b := range s.byzantine() {
+			_ = b
+		}
+	}
+	s.logf("oldPolka(h%d r%d victims=%v committer=%d)", h, round, victims, committer)
+	r.counts["oldPolka.done"]++
+	skip := map[int]bool{committer: true}
+	rounds := rapid.IntRange(1, 3).Draw(rt, "rounds")
+	for k := 1; k <= rounds; k++ {
+		if err := r.supportRound(h, round+1+int32(k), skip); err != nil {
+			return err
+		}
+	}
+	return nil
+}
+
 // supportRound: at (h, round) deliver the round's proposal to the live correct nodes still at
 // height h, let the Byzantine validators prevote and precommit every block proposed for this
 // round, and deliver only this round's messages.
@@ -594,12 +738,24 @@ func (r *simRun) supportRound(h int64, round int32, skip map[int]bool) error {
 	if len(R) == 0 {
 		return nil
 	}
-	// nodes behind this round: push them by timeouts where a timer is pending
+	// nodes behind this round (e.g. restarted ones): give them the correct nodes' votes of their
+	// own round again and push them by timeouts where a timer is pending
 	for _, j := range R {
-		for i := 0; i < 4; i++ {
+		for i := 0; i < 6; i++ {
 			st := s.nodes[j].state()
-			if st.Height != h || st.Round >= round || !st.HasTimer {
+			if st.Height != h || st.Round >= round {
 				break
+			}
+			if !st.HasTimer {
+				cur := st.Round
+				if err := s.flushTo(j, func(m *simMsg) bool {
+					return m.kind == "vote" && !m.byz && m.h == h && m.r == cur
+				}); err != nil {
+					return err
+				}
+				if st2 := s.nodes[j].state(); !st2.HasTimer {
+					break
+				}
 			}
 			if err := s.timeout(j); err != nil {
 				return err
@@ -941,9 +1097,9 @@ func simRunCase(rt *rapid.T, mode string, profile string, rec *ev.Rec) {
 	steps := 0
 	var runErr error
 	// opening: optionally some synchronous heights, then optionally the scripted adversary first
-	openings := []string{"none", "script", "script", "sync1+script", "sync1"}
+	openings := []string{"none", "script", "script", "sync1+script", "sync1", "oldPolka"}
 	if profile == "scripted" {
-		openings = []string{"script", "script", "sync1+script"}
+		openings = []string{"script", "script", "sync1+script", "oldPolka", "oldPolka", "sync1+oldPolka"}
 	}
 	opening := rapid.SampledFrom(openings).Draw(rt, "opening")
 	if strings.HasPrefix(opening, "sync1") {
@@ -951,6 +1107,9 @@ func simRunCase(rt *rapid.T, mode string, profile string, rec *ev.Rec) {
 	}
 	if runErr == nil && strings.HasSuffix(opening, "script") {
 		runErr = r.splitLock()
+	}
+	if runErr == nil && strings.HasSuffix(opening, "oldPolka") {
+		runErr = r.oldPolka()
 	}
 	for runErr == nil && steps < maxSteps {
 		ev.Journal(head + "\n" + strings.Join(s.history, "\n"))
@@ -1039,6 +1198,12 @@ func simRunCase(rt *rapid.T, mode string, profile string, rec *ev.Rec) {
 	}
 	if r.counts["splitLock.done"] > 0 {
 		labels = append(labels, "splitLock")
+	}
+	if r.counts["oldPolka.done"] > 0 {
+		labels = append(labels, "oldPolkaScript")
+	}
+	if r.counts["oldPolka.stuck"] > 0 {
+		labels = append(labels, "oldPolkaStuck")
 	}
 	if len(s.dsr) > 0 {
 		labels = append(labels, "doubleSignReported")
